@@ -23,7 +23,9 @@ Modelling decisions (see props/C08.json):
   `lockRemove`, `unlabel`, `setStatus`); the equivalence with a full replace relies
   on resourceVersion determining the content, which the correspondence checks.
 * Only the deletion branches are programs; a reconcile that reads a live object
-  returns `Res.oos` (out of scope). Field sync (C07) and binding (C06) are absent.
+  returns `Res.oos` (out of scope). Field sync (C07) and binding (C06) are absent;
+  `Act.create` stands for whatever they (or a user) may create and is excluded from
+  the alphabet of the trace theorems (`NoCreate`), see the known finding in Props.
 * Status conditions are abstract tokens; they matter only because a changed
   status bumps the resourceVersion.
 -/
@@ -532,6 +534,14 @@ def Sys.run (s : Sys) : List Act → Sys
   | [] => s
   | a :: rest => (s.act a).run rest
 
+/-- the configuration reached from store `st0` with no reconcile in flight -/
+def reach (st0 : St) (acts : List Act) : Sys := Sys.run ⟨st0, []⟩ acts
+
+/-- the schedule contains no creation step: it is made of reconciles of the six modelled
+deletion branches (each call with any fault outcome), user deletions, garbage collection
+steps, finalizer removals and crashes -/
+def NoCreate (acts : List Act) : Prop := ∀ a ∈ acts, a.isCreate = false
+
 /-! ### the property as a predicate on (state, controller, request about to be applied) -/
 
 def present (s : St) (k : Key) : Bool := (find s k).isSome
@@ -577,7 +587,7 @@ def safeReq (s : St) (c : Ctl) (n : String) : Req → Bool
 
 /-- the next request of in-flight reconcile `i` violates the ordering constraint in the
 current store -/
-def Sys.unsafeAt (s : Sys) (i : Nat) : Bool :=
+def Sys.violatesAt (s : Sys) (i : Nat) : Bool :=
   match s.ths[i]? with
   | none => false
   | some t =>
